@@ -199,6 +199,22 @@ class CallMixin(object):
       return self.call_repo(st, cx, callee, list(args), kwargs, node)
     if isinstance(callee, VModule):
       short = callee.name.split('.')[-1]
+      if short == 'crc32' and args and isinstance(args[0], V) and args[0].ty.k == 'bytes':
+        # zlib.crc32 as an uninterpreted function of the (normalised) bytes; a running crc carries
+        # the bytes it stands for, so crc32(b, crc32(a)) = crc32(a ++ b) holds by construction
+        from .bytesalg import normalise
+        atoms = list(args[0].py)
+        if len(args) > 1:
+          if not isinstance(args[1].py, list):
+            raise Unsupported('crc32 continuation from an unknown crc value')
+          atoms = list(args[1].py) + atoms
+        parts = []
+        for a in normalise(atoms):
+          parts.extend([z3.IntVal({'u': 1, 'raw': 2, 'fix': 3}[a[0]])] + [x if not isinstance(x, int) else z3.IntVal(x) for x in a[1:]])
+        f = z3.Function('crc32_%d' % len(parts), *([I] * (len(parts) + 1)))
+        r = f(*parts) if parts else z3.IntVal(0)
+        st.assume(z3.And(r >= 0, r < 4294967296))
+        return iter([(st, V(INT, r, py=atoms))])
       if short == 'BytesIO' and not args:
         return iter([(st, self.new_buffer(st))])
       if short == 'BytesIO' and len(args) == 1 and isinstance(args[0], V) and args[0].ty.k == 'bytes':
@@ -578,6 +594,11 @@ class CallMixin(object):
         yield o
       return
     ci = self.class_info(cname)
+    if ci.listlike and ci.extern:
+      # namedtuple-like record: positional / keyword fields
+      vals = list(args) + [kwargs[f] for f in ci.listlike[len(args):] if f in kwargs]
+      yield st, self.make_record(st, Ty('ref', (), cname), vals, node)
+      return
     member, mod, owner = self.find_member(cname, '__init__')
     r = self.new_ref(st, cname)
     obj = V(Ty('ref', (), cname), r)
